@@ -122,28 +122,28 @@ def solve_one(job):
 
 
 def solve_long(job):
-    """second opinion with four times the budgets, for an obligation that was discharged on the baseline tree and is undecided after a code
+    """second opinion with twice the budgets, for an obligation that was discharged on the baseline tree and is undecided after a code
     change: a verdict must not flip because the machine is busy or a harmless edit made the query a little slower"""
     key, smt2 = job
     res = dict(key=key, status='unknown', backend='z3', seconds=0.0, reason='')
     t0 = time.time()
     try:
         s = z3.Solver()
-        s.set('timeout', 4 * Z3_TIMEOUT_MS)
+        s.set('timeout', 2 * Z3_TIMEOUT_MS)
         s.from_string(smt2)
-        r = guarded_check(s, 4 * Z3_TIMEOUT_MS)
+        r = guarded_check(s, 2 * Z3_TIMEOUT_MS)
         if r in (z3.unsat, z3.sat):
             res.update(status=str(r), backend='z3', seconds=time.time() - t0)
             return res
-        res['reason'] += ' | z3(%dms): %s' % (4 * Z3_TIMEOUT_MS, s.reason_unknown())
+        res['reason'] += ' | z3(%dms): %s' % (2 * Z3_TIMEOUT_MS, s.reason_unknown())
     except Exception as e:
         res['reason'] += ' | z3 error: %s' % e
     try:
-        r2 = run_cvc5(smt2, seconds=4 * CVC5_TIMEOUT_S)
+        r2 = run_cvc5(smt2, seconds=2 * CVC5_TIMEOUT_S)
         if r2 in ('unsat', 'sat'):
             res.update(status=r2, backend='cvc5', seconds=time.time() - t0)
             return res
-        res['reason'] += ' | cvc5(%ds): %s' % (4 * CVC5_TIMEOUT_S, r2)
+        res['reason'] += ' | cvc5(%ds): %s' % (2 * CVC5_TIMEOUT_S, r2)
     except Exception as e:
         res['reason'] += ' | cvc5 error: %s' % e
     res['seconds'] = time.time() - t0
